@@ -1,5 +1,7 @@
 mod arrgen;
 mod c01;
+mod c10;
+mod c11;
 mod c13;
 mod c14;
 mod c15;
@@ -39,6 +41,8 @@ fn main() {
     let mut ctx = ctx::Ctx::new(&prop, thorough, seed, out, only);
     match prop.as_str() {
         "C01" | "C03" => c01::run(&mut ctx),
+        "C10" => c10::run(&mut ctx),
+        "C11" => c11::run(&mut ctx),
         "C13" => c13::run(&mut ctx),
         "C14" => c14::run(&mut ctx),
         "C15" => c15::run(&mut ctx),
